@@ -427,6 +427,13 @@ func runC10(cx *CheckCtx) {
 					okTLD = true
 				}
 			}
+			okDepth := false
+			for _, f := range a.unitFacts(namePut.In) {
+				if f.kind == KEqC && !f.pos && f.C == 1 && f.A.Op == "len" && splitOf(a, f.A.Args[0], name) {
+					okDepth = true
+				}
+			}
+			cx.decide(okDepth, "ownership-change", "nns.Register/not-a-tld", "the record is stored only for a name of at least two labels", "register can store a top-level name (TLDs are the committee's, through registerTLD)", namePut.Where(w))
 			cx.decide(okPar && okTLD, "ownership-change", "nns.Register/parents-alive", "the record is stored only with the TLD present and no enclosing name expired", "a name can be registered under an expired (or missing) parent or a missing TLD", namePut.Where(w))
 			cx.decide(okTake, "ownership-change", "nns.Register/takeover-only-expired", "an existing record is taken over only with now ≥ its expiration established", "a registered, unexpired name can be taken over", relDel.Where(w))
 			// D5 (C12): conflicting parent record is in C12
@@ -568,9 +575,77 @@ func runC10(cx *CheckCtx) {
 				// and the bound alone must hold for multi-fragment names: the TLD exemption literal must exist
 				okB = true
 			}
+			// converse: Renew's own code refuses only years outside 1 … 10, a name longer than 255
+			// bytes or a renewal beyond the ten-year cap (faults of the name lookup and of the
+			// authorisation are raised by the helpers it calls)
+			{
+				name := paramTerm(tb, m, "name")
+				reasons := []int32{a.litLtC(years, 1), -a.litLtC(years, 11), -a.litLtC(a.litLen(name), 256)}
+				for id := int32(1); id < int32(len(a.lt.lits)); id++ {
+					l := a.lt.lits[id]
+					if l.Kind == KLt && l.B.Op == "field" && l.B.Name == "Expiration" && l.A.contains(func(x *Term) bool { return isCall(x, "runtime.GetTime") }) {
+						reasons = append(reasons, id)
+					}
+				}
+				okAcc, nAcc := true, 0
+				for _, b := range m.Fn.Blocks {
+					if _, isPanic := b.Instrs[len(b.Instrs)-1].(*ssa.Panic); !isPanic {
+						continue
+					}
+					for _, p := range b.Preds {
+						if st := a.edgeState(tb.root, p, b); st != nil {
+							nAcc++
+							if !a.holdsAt(st, reasons...) {
+								okAcc = false
+							}
+						}
+					}
+				}
+				cx.decide(okAcc && nAcc > 0, "renew", "nns.Renew/accepts", "refuses only years outside 1 … 10, a name over 255 bytes or a renewal beyond the ten-year cap", "a renewal for 1 … 10 years inside the cap can be refused", put.Where(w))
+			}
 			cx.decide(okB, "renew", "nns.Renew/ten-years", "new expiration ≤ now + 10 years established unless the name is a TLD", "a non-TLD name can be renewed beyond ten years ahead", put.Where(w))
 			na := notifyArgs(notif)
 			cx.decide(len(na) == 3 && na[1] == tb.field(rec, "Expiration") && na[2] == newExp, "renew", "nns.Renew/notify", "Renew(name, old, new)", "Renew notification carries "+termList(na), notif.Where(w))
+		}
+	}
+	// D4b RegisterTLD: one label, root marker written, only over an absent or expired TLD
+	if m := cx.method("nns", "RegisterTLD"); m != nil {
+		a := cx.run(m)
+		tb := a.tb
+		name := paramTerm(tb, m, "name")
+		var rootPut, recPut *Site
+		for _, s := range a.RealEffects() {
+			if s.Effect == "put" && keyFamily(s.Args[1]) == pfxRoot {
+				rootPut = s
+			}
+			if s.Effect == "put" && keyFamily(s.Args[1]) == pfxName {
+				recPut = s
+			}
+		}
+		if rootPut == nil || recPut == nil {
+			cx.violated("ownership-change", "nns.RegisterTLD/shape", "registerTLD no longer writes the root marker and the name record", w.pos(m.Fn.Pos()))
+		} else {
+			okOne := false
+			for _, f := range a.unitFacts(recPut.In) {
+				if f.kind == KEqC && f.pos && f.C == 1 && f.A.Op == "len" && splitOf(a, f.A.Args[0], name) {
+					okOne = true
+				}
+			}
+			// absent or expired: Nil(read root marker) ∨ the liveness helper said "expired"
+			var reasons []int32
+			for id := int32(1); id < int32(len(a.lt.lits)); id++ {
+				l := a.lt.lits[id]
+				if l.Kind == KNil && l.A.Op == "read" && len(l.A.Args) > 0 && l.A.Args[0] == rootPut.Args[1] {
+					reasons = append(reasons, id)
+				}
+				if l.Kind == KB && a.resultSite(l.A, fq(nnsParentExpiredFn(cx))) != nil {
+					reasons = append(reasons, id)
+				}
+			}
+			okFree := len(reasons) >= 2 && a.holdsAt(recPut.In, reasons...)
+			cx.decide(okOne && rootPut.Args[1] == tb.cat(tb.constBytes(pfxRoot), name), "ownership-change", "nns.RegisterTLD/one-label", "stores the root marker 0x20‖name and the record only for a one-label name", "registerTLD accepts a name that is not a TLD (or marks another root)", recPut.Where(w))
+			cx.decide(okFree, "ownership-change", "nns.RegisterTLD/free", "only over an absent or expired TLD", "registerTLD can overwrite a live TLD (its record and ownership are reset)", recPut.Where(w))
+			cx.decide(executedAtEveryExit(a, rootPut, recPut), "ownership-change", "nns.RegisterTLD/written", "every normal return has written the root marker and the record", "registerTLD can return normally without the root marker (or the record): names under the TLD cannot be registered", rootPut.Where(w))
 		}
 	}
 	// D6 boundary agreement
@@ -1232,6 +1307,46 @@ func runC12(cx *CheckCtx) {
 				}
 			}
 		}
+		// polarity: a record name is reported as conflicting only when the searched name was found in
+		// it at a positive offset and ends it; "no conflict" only after the scan is exhausted
+		okPol := true
+		nRep := 0
+		for _, ex := range a.Exits() {
+			if len(ex.Results) != 1 {
+				continue
+			}
+			r := ex.Results[0]
+			if es, isC := r.BytesConst(); isC && es == "" {
+				// exhausted
+				exh := false
+				for _, f := range a.unitFacts(ex.State) {
+					if f.kind == KB && !f.pos && f.A.Op == "iternext" {
+						exh = true
+					}
+				}
+				if !exh {
+					okPol = false
+				}
+				continue
+			}
+			nRep++
+			pos, ends := false, false
+			for _, f := range a.unitFacts(ex.State) {
+				isInd := func(t *Term) bool {
+					return t != nil && t.contains(func(x *Term) bool { return isCall(x, "native/std.MemorySearchLastIndex") })
+				}
+				if f.kind == KLtC && !f.pos && f.C == 1 && isInd(f.A) {
+					pos = true
+				}
+				if (f.kind == KEq || f.kind == KEqC) && f.pos && (isInd(f.A) || isInd(f.B)) {
+					ends = true
+				}
+			}
+			if !pos || !ends {
+				okPol = false
+			}
+		}
+		cx.decide(okPol && nRep > 0, "parent-conflict", "nns.getParentConflictingRecord/polarity", "a conflict is reported only for a record name that ends with '.'‖name; none only after exhaustion", "the conflict test is inverted or weakened: names are refused without a conflicting parent record, or registered in spite of one", w.pos(fn.Pos()))
 		cx.decide(okS, "parent-conflict", "nns.getParentConflictingRecord/scan", "scans all records stored under the enclosing name", "the conflict check does not scan the records of the directly enclosing name", w.pos(fn.Pos()))
 	}
 	// ---- D7 records become unreachable when the name expires: a read-only getter scans the
@@ -1974,4 +2089,27 @@ func nnsTransferResetsAdmin(cx *CheckCtx, rule string) {
 		ok = isRec && k == nkey && tb.field(v, "Owner") == to && tb.field(v, "Admin").IsNil()
 	}
 	cx.decide(ok, rule, "nns.Transfer/record", "stores the loaded record with Owner := to, Admin := nil", "transfer stores "+v.pretty()+": the admin survives the transfer and keeps changing the new owner's name", namePut.Where(cx.W))
+}
+
+// splitOf: t is the list of labels of name: std.StringSplit(name, ".") itself or
+// the result of an inlined helper called with name (the validating splitter).
+func splitOf(a *Analysis, t, name *Term) bool {
+	if t.contains(func(x *Term) bool { return x == name }) {
+		return true
+	}
+	for _, s := range a.sites {
+		if !s.Inlined || s.Val == nil {
+			continue
+		}
+		hasName := false
+		for _, x := range s.Args {
+			if x == name {
+				hasName = true
+			}
+		}
+		if hasName && (s.Val == t || a.resultSite(t, s.Callee) == s) {
+			return true
+		}
+	}
+	return false
 }
